@@ -258,6 +258,8 @@ class BaseParser:
                 field.resolve_forward_refs()
             # resolve for types
             self.addition_type, r = resolve_forward_type(self.addition_type)
+            # before the evaluated references of a local object are cleared below
+            self.resolve_extra_forward_types()
         if self.is_local:
             # ForwardRef in local vars is not cachable
             # where typing is using a lru_cache
@@ -266,6 +268,10 @@ class BaseParser:
                 ref.__forward_evaluated__ = False
                 ref.__forward_value__ = None
         return resolved
+
+    def resolve_extra_forward_types(self):
+        # for subclasses holding further types (the return / *args type of a function)
+        pass
 
     @classmethod
     def validate_field_name(cls, name: str):
